@@ -137,3 +137,49 @@ Example C10_clone_sample :
   fast_lookup s' 5 KCable str_NAME [99%N] = Some 7 /\ fast_lookup s' 5 KInstance str_NAME [105%N] = Some 6 /\
   scan_lookup s' (kids s' RCables 9) str_NAME [99%N] = Some 10.
 Proof. vm_compute. repeat split. Qed.
+
+(* the same after a completed Library.clone and after a completed Netlist.clone (of a library / netlist that
+   carries a naming policy): every namespace table - those of the original design, untouched, and those of
+   the copy: one per copied netlist, library and definition, created empty when the copies are constructed
+   and rebuilt from the copy's children when the policy is re-applied to the detached copy at the end of
+   clone() - is exactly the names (identifiers) of the children of its scope. Proofs/CloneNsLib.v. *)
+From SV Require Import Proofs.CloneNetInv Proofs.CloneNsLib.
+Theorem C10_clone_library_tables_exact : forall ops l,
+  let s := run ops init in
+  kind_of s l = Some KLibrary -> has_key s l str_NS = true -> snd (fst (clone_library s l)) = None ->
+  let s' := fst (fst (clone_library s l)) in NsInv s' /\ InvT s' /\ Inv1a s'.
+Proof. exact clone_library_nsinv. Qed.
+Print Assumptions C10_clone_library_tables_exact.
+
+Theorem C10_clone_netlist_tables_exact : forall ops (n : id),
+  let s := run ops init in
+  kind_of s n = Some KNetlist -> Closed s n -> has_key s n str_NS = true -> snd (fst (clone_netlist s n)) = None ->
+  let s' := fst (fst (clone_netlist s n)) in NsInv s' /\ InvT s' /\ Inv1a s'.
+Proof. exact clone_netlist_nsinv. Qed.
+Print Assumptions C10_clone_netlist_tables_exact.
+
+(* non-vacuity: a library "w" with cells "d" (port "a") and "e" (cable "c", child "i" of "d"), "e" the top cell.
+   The copy of the library (10) answers lookups for its cells (11, 14), which answer for their own port, cable and
+   child; the copy of the netlist (10) answers for its library (11), that for its cells (12, 15), those for theirs;
+   the originals answer as before *)
+Example C10_clone_library_netlist_sample :
+  let ops := [ ONew KNetlist None []; OCreate RLibs 0 (Some [119%N]) [] 0 None; OCreate RDefs 1 (Some [100%N]) [] 0 None;
+               OCreate RPorts 2 (Some [97%N]) [] 1 None; OCreate RDefs 1 (Some [101%N]) [] 0 None;
+               OCreate RChildren 5 (Some [105%N]) [] 0 (Some 2); OCreate RCables 5 (Some [99%N]) [] 1 None;
+               OConnect 8 (POut 6 4) None; OSetTop 0 (TopDef 5) ] in
+  let s := run ops init in
+  let sl := fst (fst (clone_library s 1)) in
+  let sn := fst (fst (clone_netlist s 0)) in
+  next s = 10 /\ kind_of s 1 = Some KLibrary /\ has_key s 1 str_NS = true /\ snd (fst (clone_library s 1)) = None /\ snd (clone_library s 1) = 10 /\
+  kind_of s 0 = Some KNetlist /\ Closed s 0 /\ has_key s 0 str_NS = true /\ snd (fst (clone_netlist s 0)) = None /\ snd (clone_netlist s 0) = 10 /\
+  fast_lookup sl 10 KDefinition str_NAME [100%N] = Some 11 /\ fast_lookup sl 10 KDefinition str_NAME [101%N] = Some 14 /\
+  fast_lookup sl 14 KCable str_NAME [99%N] = Some 15 /\ fast_lookup sl 14 KInstance str_NAME [105%N] = Some 17 /\
+  fast_lookup sl 11 KPort str_NAME [97%N] = Some 12 /\ fast_lookup sl 1 KDefinition str_NAME [101%N] = Some 5 /\ fast_lookup sl 5 KCable str_NAME [99%N] = Some 7 /\
+  fast_lookup sn 10 KLibrary str_NAME [119%N] = Some 11 /\ fast_lookup sn 11 KDefinition str_NAME [101%N] = Some 15 /\
+  fast_lookup sn 15 KCable str_NAME [99%N] = Some 16 /\ fast_lookup sn 15 KInstance str_NAME [105%N] = Some 18 /\
+  fast_lookup sn 12 KPort str_NAME [97%N] = Some 13 /\ fast_lookup sn 0 KLibrary str_NAME [119%N] = Some 1 /\
+  fast_lookup sn 1 KDefinition str_NAME [101%N] = Some 5 /\ scan_lookup sn (kids sn RDefs 11) str_NAME [101%N] = Some 15.
+Proof.
+  cbv zeta. repeat (split; [vm_compute; reflexivity|]). split; [apply closedb_ok; vm_compute; reflexivity|].
+  repeat (split; [vm_compute; reflexivity|]). vm_compute; reflexivity.
+Qed.
